@@ -160,6 +160,11 @@ def main():
         print("jsonpath_rfc9535 imported from %s, expected under %s" % (where, repo))
         sys.exit(3)
     rec = Recorder(hb_path, wal_path)
+    imode = os.environ.get("VERIF_INTERPRETER_MODE", "plain")
+    if imode == "package-warnings-are-errors":
+        import warnings
+        warnings.filterwarnings("error", module=r"jsonpath_rfc9535(\..*)?$")
+    rec.features["interpreter:" + imode + (":asserts-removed" if not __debug__ else "")] += 1
     if spec.get("kind") == "replay":
         mod.replay(spec["case"], rec)
     else:
